@@ -1,5 +1,6 @@
 //! Correspondence harness: drives the real worterbuch code with the same cases the Coq model is
 //! evaluated on and prints canonical observations, one line per operation.
+mod agg_engine;
 mod auth_engine;
 mod codec_engine;
 mod core_engine;
@@ -18,6 +19,7 @@ fn main() {
         "codec" => codec_engine::main(&args[2], &args[3]),
         "auth" => auth_engine::main(&args[2], &args[3]),
         "persist" => persist_engine::main(&args[2], &args[3]),
+        "agg" => agg_engine::main(&args[2], &args[3]),
         other => {
             eprintln!("unknown engine {other}");
             std::process::exit(2);
